@@ -562,7 +562,7 @@ class Interp:
             n = 0
             for item in it:
                 n += 1
-                if n > 64:
+                if n > (getattr(self.sc, "max_loop", None) or 64):
                     raise AnalysisError("circuit evaluation: loop bound (64) exceeded")
                 self.assign(st.target, item, env, m)
                 try:
@@ -578,7 +578,7 @@ class Interp:
             n = 0
             while self.truth(self.eval(st.test, env, m)):
                 n += 1
-                if n > 64:
+                if n > (getattr(self.sc, "max_loop", None) or 64):
                     raise AnalysisError("circuit evaluation: loop bound (64) exceeded")
                 try:
                     self.block(st.body, env, m)
